@@ -74,18 +74,32 @@ def run(ctx):
     drv = ctx.build_model('C19', 'ExtractC19.v', 'drv_c19.ml')
     h = ctx.build_harness('c19_sr', 'c19_sr.cpp')
     quick = ctx.tier == 'quick'
-    nseq = 60 if quick else 500
-    nconc = 24 if quick else 250
+    nseq = 60 if quick else 300
+    nconc = 24 if quick else 150
     work = '%s/c19' % BUILD
     os.makedirs(work, exist_ok=True)
-    for ci, (nw, el, st, pol) in enumerate(configs(ctx.tier)):
+    replay_case = None
+    cfg_list = configs(ctx.tier)
+    if ctx.replay:
+        import json
+        try:
+            rp = json.load(open(ctx.replay)).get('replay', {})
+            cfg_list = [tuple(rp['config'])]
+            replay_case = rp['case']
+            r.notes.append('replay of %s in configuration %s' % (replay_case, rp['config']))
+        except Exception as e:    # not a C19 replay file: run the normal check
+            r.notes.append('replay file not usable (%r): full run' % e)
+    for ci, (nw, el, st, pol) in enumerate(cfg_list):
         rng = random.Random(ctx.seed * 7919 + ci * 104729 + 13)
         if pol.startswith('static'):
             st = 0    # the static schedulers remove enable_stealing from whatever mode they are given
         cfgs = 'nw=%d el=%d st=%d' % (nw, el, st)
         # ---- generate SEQ histories, model first
         hist = [gen_history(rng, nw, el, st) for _ in range(nseq)]
-        hist[0] = ['oSP%d' % (nw - 1), 'dSP0', 'sSP0', 'sSA', 'oT%d' % (nw - 1), 'oRP%d' % (nw - 1), 'oRP0']   # always: the refusals
+        if replay_case is not None:
+            f0 = replay_case.split(' ')
+            hist = [f0[2].split(',')] if f0[0] == 'SEQ' else [['oT0']]
+        hist[0] = hist[0] if replay_case is not None else ['oSP%d' % (nw - 1), 'dSP0', 'sSP0', 'sSA', 'oT%d' % (nw - 1), 'oRP%d' % (nw - 1), 'oRP0']   # always: the refusals
         ins = ['IN SEQ s%d %s ops=%s' % (i, cfgs, ','.join(o)) for i, o in enumerate(hist)]
         mo = model_run(drv, ins)
         # a submission without hint goes to queue curr_queue_++ % n, and curr_queue_ is not observable: keep un-hinted
@@ -132,14 +146,19 @@ def run(ctx):
             expect[('SEQ', cid)] = 'r=' + '|'.join(res)
         gates = []
         if el and pol.startswith('local_priority'):
-            gates = ['GATE g1 1', 'GATE g2 2']
-            gm = model_run(drv, ['IN GATE g1 %s kind=1' % cfgs, 'IN GATE g2 %s kind=2' % cfgs])
+            gates = ['GATE g1 1', 'GATE g2 2', 'GATE g3 3']
+            gm = model_run(drv, ['IN GATE g1 %s kind=1' % cfgs, 'IN GATE g2 %s kind=2' % cfgs, 'IN GATE g3 %s kind=3' % cfgs])
             for x in gm:
                 p = x.split(' ', 3)
                 expect[('GATE', p[2])] = p[3]
         concs = ['CONC c%d %d %d %d %d' % (k, rng.randrange(1, 1 << 30), rng.randint(2, 4), rng.randint(10, 40), k % 3 == 2)
                  for k in range(nconc)] if True else []
-        allcases = gates + cases + concs
+        lowp = ['LOWP p1'] if el and pol.startswith('local_priority') else []
+        allcases = gates + cases + concs + lowp
+        if replay_case is not None:
+            k0 = replay_case.split(' ')[0]
+            allcases = {'SEQ': cases[:1], 'GATE': [g_ for g_ in gates if g_.split(' ')[2] == replay_case.split(' ')[2]],
+                        'CONC': [replay_case], 'LOWP': lowp}.get(k0, [])
         # ---- run the real runtime (restart after a hang)
         outs = {}
         inl = {}
@@ -234,6 +253,13 @@ def run(ctx):
                     r.hits.append(Hit('corr', 'C19:seq:correspondence', 'sequential history %s (%s %s): implementation [%s] model [%s]'
                                       % (f[2], cfgs, pol, got, want), dict(rep, impl=got, model=want)))
                 r.sample({'config': cfgs + ' ' + pol, 'history': f[2], 'observed': got})
+            elif f[0] == 'LOWP':
+                r.nontrivial('%s %s lowp' % (cfgs, pol))
+                if kvs.get('returned') != '1':
+                    r.hits.append(Hit('monitor', 'C19:suspend_pu_blocked_by_low_priority_tasks',
+                                      'suspend_processing_unit_direct(last worker) did not return within 3 s while low-priority tasks were staged: '
+                                      'states %s, %s of %s tasks done, no progress=%s (%s %s)' % (kvs.get('states_then'), kvs.get('done_then'),
+                                                                                              kvs.get('of'), kvs.get('no_progress'), cfgs, pol), rep))
             elif f[0] == 'GATE':
                 want = expect[key]
                 got = o.split(' all=')[0]
@@ -243,6 +269,15 @@ def run(ctx):
                     r.hits.append(Hit('monitor', 'C19:slept_over_queued_task',
                                       'a task was enqueued on the worker before it re-checked its queue, yet the worker went to sleep without '
                                       'running it (suspend returned with the task pending) (%s %s): %s' % (cfgs, pol, o), rep))
+                if f[2] == '3' and kvs.get('reached') == '1' and kvs.get('returned_while_parked') == '1':
+                    r.hits.append(Hit('monitor', 'C19:suspend_overtook_validated_enqueue',
+                                      'suspend_processing_unit_direct completed while a submitter that had selected this worker (running, under '
+                                      'select_active_pu) had not yet enqueued its task: the enqueue is not covered by the PU lock (%s %s): %s'
+                                      % (cfgs, pol, o), rep))
+                if f[2] == '3' and kvs.get('reached') == '1' and kvs.get('done_at_return') != '1':
+                    r.hits.append(Hit('monitor', 'C19:slept_over_queued_task',
+                                      'a task enqueued on a running worker under the PU lock before the suspend was not run by that worker before it '
+                                      'went to sleep (%s %s): %s' % (cfgs, pol, o), rep))
                 if f[2] == '2' and (kvs.get('early_return') == '1' or not kvs.get('states_at_return', '5').endswith('5')
                                      or kvs.get('ran_after_resume') != '1'):
                     r.hits.append(Hit('monitor', 'C19:resume_left_worker_sleeping',
@@ -272,5 +307,5 @@ def run(ctx):
                     r.hits.append(Hit('tie', 'C19:hooks_silent', 'hook 1906 never fired although tasks were submitted', rep))
                 if len(r.samples) < 6 and f[1] == 'c0':
                     r.sample({'config': cfgs + ' ' + pol, 'conc': c, 'observed': o})
-    r.extra['configurations'] = ['nw=%d el=%d st=%d %s' % c for c in configs(ctx.tier)]
+    r.extra['configurations'] = ['nw=%d el=%d st=%d %s' % tuple(c) for c in cfg_list]
     return r
